@@ -275,11 +275,31 @@ pub fn c08(v: &View) -> Vec<Violation> {
     }
     // 5. genuine packets are decryptable: with no corrupting fault and no key update, no
     //    packet may be dropped because decryption failed
-    let corrupting = o.net.fired.keys().any(|k| matches!(*k, "corrupt" | "truncate" | "extend" | "splice" | "replay"))
+    // (a reordered packet is only guaranteed to decode while fewer than half a truncation
+    //  window of newer packets overtook it, so reordering runs are excluded as well)
+    let corrupting = o.net.fired.keys().any(|k| !matches!(*k, "drop" | "mtu_drop" | "ecn_ce"))
+        || o.plan.cfg.jitter_us > 0
         || !o.plan.attacker.is_empty();
     let key_updates = o.obs.evs.iter().filter(|e| matches!(e.ev, Ev::KeyUpdate { generation: Some(g) } if g > 0)).count();
     if !corrupting && key_updates == 0 {
+        // a datagram larger than the receiver's configured receive buffer (max_mtu) is
+        // truncated by the socket layer: that is not an unmodified delivery
+        let cap = |ep: u32| -> usize {
+            let m = if ep == 0 { o.plan.cfg.server.max_mtu } else { o.plan.cfg.client.max_mtu };
+            m as usize - 28
+        };
+        let truncated_for = |ep: u32| -> bool {
+            let addrs: Vec<_> = if ep == 0 {
+                o.server_addr.iter().copied().collect()
+            } else {
+                o.client_addrs.get(ep as usize - 1).copied().into_iter().collect()
+            };
+            o.net.delivered.iter().any(|(_, dst, _, len, _)| addrs.contains(dst) && *len > cap(ep))
+        };
         for e in &o.obs.evs {
+            if truncated_for(e.ep) {
+                continue;
+            }
             if let Ev::PacketDropped { reason } = &e.ev {
                 if reason.starts_with("DecryptionFailed") || reason.starts_with("UnprotectFailed") {
                     out.push(viol(
@@ -324,9 +344,71 @@ fn c08_promptness(v: &View, idx: u32, role: Role, side: Side) -> Vec<Violation> 
             }
         }
     }
+    // packet numbers evicted from the endpoint's bounded ACK-range store (RFC 9000 13.2.3
+    // allows limiting the ranges kept; the property's own C16 clause allows dropping the lowest)
+    let evicted: Vec<(u64, u64)> = o
+        .obs
+        .evs
+        .iter()
+        .filter(|e| e.ep == side.ep && e.conn == side.conn)
+        .filter_map(|e| match e.ev {
+            Ev::RxAckRangeDropped { lo, hi } => Some((lo, hi)),
+            _ => None,
+        })
+        .collect();
+    // my ACK-carrying packets (pn -> largest acknowledged in it), in send order
+    let mut my_acks: Vec<(u64, u64, u64)> = vec![]; // (seq, pn, largest)
+    for (k, t) in o.obs.tx.iter().enumerate() {
+        if t.ep == side.ep && t.conn == side.conn && t.space == Space::App {
+            if let Ok(fr) = &v.tx_frames[k] {
+                for f in fr {
+                    if let Frame::Ack { largest, .. } = f {
+                        my_acks.push((t.seq, t.pn, *largest));
+                    }
+                }
+            }
+        }
+    }
+    // RFC 9000 13.2.4: once the peer acknowledged a packet carrying an ACK frame, the receiver
+    // may stop tracking everything up to the largest number acknowledged in that frame
+    // all prune events of this side: (seq, time, floor)
+    let mut prunes: Vec<(u64, u64, u64)> = vec![];
+    for (i, r) in o.obs.rx.iter().enumerate() {
+        if !(r.ep == side.ep && r.conn == side.conn && r.space == Space::App) {
+            continue;
+        }
+        if let Ok(fr) = &v.rx_frames[i] {
+            for f in fr {
+                if let Frame::Ack { ranges, .. } = f {
+                    for (seq, pn, l) in &my_acks {
+                        if *seq < r.seq && ranges.iter().any(|(lo, hi)| lo <= pn && pn <= hi) {
+                            prunes.push((r.seq, r.t_ns, *l));
+                        }
+                    }
+                }
+            }
+        }
+    }
+    let mut reported: BTreeSet<&str> = BTreeSet::new();
+    let mut pruned_upto: Option<u64> = None;
     let mut largest: Option<u64> = None;
     for (i, r) in o.obs.rx.iter().enumerate() {
         if !(r.ep == side.ep && r.conn == side.conn && r.space == Space::App) {
+            continue;
+        }
+        if let Ok(fr) = &v.rx_frames[i] {
+            for f in fr {
+                if let Frame::Ack { ranges, .. } = f {
+                    for (seq, pn, l) in &my_acks {
+                        if *seq < r.seq && ranges.iter().any(|(lo, hi)| lo <= pn && pn <= hi) {
+                            pruned_upto = Some(pruned_upto.map_or(*l, |p: u64| p.max(*l)));
+                        }
+                    }
+                }
+            }
+        }
+        if evicted.iter().any(|(lo, hi)| *lo <= r.pn && r.pn <= *hi) || pruned_upto.map_or(false, |p| r.pn <= p) {
+            largest = Some(largest.map_or(r.pn, |l| l.max(r.pn)));
             continue;
         }
         let prev_largest = largest;
@@ -346,25 +428,113 @@ fn c08_promptness(v: &View, idx: u32, role: Role, side: Side) -> Vec<Violation> 
         if deadline >= closed_at || deadline >= o.end_ns {
             continue;
         }
+        // pruned (RFC 9000 13.2.4) before an ACK was due?
+        if prunes.iter().any(|(seq, t, floor)| *seq > r.seq && *t <= deadline && *floor >= r.pn) {
+            continue;
+        }
         // an ACK covering r.pn transmitted after processing and by the deadline?
         let covered = acks.iter().any(|(seq, t, ranges)| {
             *seq > r.seq && *t <= deadline && ranges.iter().any(|(lo, hi)| *lo <= r.pn && r.pn <= *hi)
         });
         if !covered {
-            // exemption: the endpoint's ack range store evicted the number (bounded store)
             let first_ack_after = acks.iter().find(|(seq, _, _)| *seq > r.seq).map(|a| a.1);
             let ever = acks.iter().find(|(seq, _, ranges)| *seq > r.seq && ranges.iter().any(|(lo, hi)| *lo <= r.pn && r.pn <= *hi)).map(|a| a.1);
+            // --- cause analysis, used only to give the violation a specific signature ---
+            // (a) was the endpoint's ACK-range store empty when the packet arrived, because
+            //     the peer had acknowledged the packets carrying all earlier ACK frames?
+            let store_empty = match (pruned_upto, prev_largest) {
+                (Some(p), Some(l)) => l <= p,
+                _ => false,
+            };
+            // (b) did the endpoint transmit anything at all between processing and the ACK?
+            let until = ever.unwrap_or(u64::MAX);
+            //     (MTU probes - PING + PADDING only - never carry ACK frames and do not count)
+            let sent_between = o.obs.tx.iter().enumerate().any(|(k, t)| {
+                t.ep == side.ep
+                    && t.conn == side.conn
+                    && t.seq > r.seq
+                    && t.t_ns < until
+                    && t.t_ns <= deadline
+                    && v.tx_frames[k].as_ref().map_or(true, |fr| {
+                        fr.iter().any(|f| !matches!(f, Frame::Ping | Frame::Padding { .. }))
+                    })
+            });
+            // (c) did the endpoint wake up exactly when its ack-delay timer was due?
+            let woke_at_timer = o.obs.evs.iter().any(|e| e.ep == side.ep && e.conn == side.conn && e.t_ns == r.t_ns + max_ack_delay_ns);
+            // (d) had the endpoint itself sent ack-eliciting (i.e. paced) packets shortly before?
+            //     Its pacer then holds back every transmission, including pure ACKs.
+            let srtt_ns = o
+                .obs
+                .evs
+                .iter()
+                .rev()
+                .filter(|e| e.ep == side.ep && e.conn == side.conn && e.t_ns <= r.t_ns)
+                .find_map(|e| match e.ev {
+                    Ev::Metrics { smoothed_us, .. } => Some(smoothed_us * 1000),
+                    _ => None,
+                })
+                .unwrap_or(0);
+            let recent_data_tx = o.obs.tx.iter().enumerate().any(|(k, t)| {
+                t.ep == side.ep
+                    && t.conn == side.conn
+                    && t.seq < r.seq
+                    && t.t_ns + 2 * srtt_ns.max(1_000_000) >= r.t_ns
+                    && v.tx_frames[k].as_ref().map_or(false, |fr| fr.iter().any(|f| f.ack_eliciting()))
+            });
+            let _ = woke_at_timer;
+            // (e) the pacing interval the endpoint itself announced (burst / rate) when it last
+            //     sent an ack-eliciting packet: that is when its earliest departure time was set
+            let last_data_tx_ns = o
+                .obs
+                .tx
+                .iter()
+                .enumerate()
+                .filter(|(k, t)| {
+                    t.ep == side.ep
+                        && t.conn == side.conn
+                        && t.seq < r.seq
+                        && v.tx_frames[*k].as_ref().map_or(false, |fr| fr.iter().any(|f| f.ack_eliciting()))
+                })
+                .map(|(_, t)| t.t_ns)
+                .max()
+                .unwrap_or(0);
+            let pacing_interval_ns = o
+                .obs
+                .evs
+                .iter()
+                .rev()
+                .filter(|e| e.ep == side.ep && e.conn == side.conn && e.t_ns <= last_data_tx_ns)
+                .find_map(|e| match e.ev {
+                    Ev::PacingRate { bytes_per_second, burst } if bytes_per_second > 0 => {
+                        Some(burst as u64 * 1_000_000_000 / bytes_per_second)
+                    }
+                    _ => None,
+                })
+                .unwrap_or(0);
+            let observed_delay_ns = ever.unwrap_or(o.end_ns).saturating_sub(r.t_ns);
+            let recent_data_tx = recent_data_tx || 2 * pacing_interval_ns >= observed_delay_ns;
+            let sig: &str = if out_of_order && store_empty {
+                "gap_after_ack_of_ack_pruned_ranges"
+            } else if !sent_between && recent_data_tx {
+                "ack_held_back_while_sender_is_paced"
+            } else if !sent_between {
+                "ack_late_no_tx"
+            } else {
+                "ack_omitted_from_sent_packets"
+            };
             out.push(viol(
                 "C08",
                 if out_of_order { "c08.ack_not_immediate" } else { "c08.ack_late" },
-                if out_of_order { "ack_not_immediate" } else { "ack_late" },
+                sig,
                 format!(
                     "conn {idx} {role:?}: ack-eliciting packet {} processed at {} us ({}), no ACK covering it sent by {} us (max_ack_delay {} ms); next ACK at {:?} us, first ACK covering it at {:?} us",
                     r.pn, r.t_ns / 1000, if out_of_order { "out of order" } else { "in order" }, deadline / 1000,
                     max_ack_delay_ns / 1_000_000, first_ack_after.map(|t| t / 1000), ever.map(|t| t / 1000)
                 ),
             ));
-            break;
+            if !reported.insert(sig) {
+                out.pop();
+            }
         }
     }
     out
@@ -455,7 +625,8 @@ fn c08_width(v: &View, idx: u32, role: Role, side: Side) -> Vec<Violation> {
                         None => t.pn + 1,
                     };
                     let bits = 8 * pn_len as u32;
-                    if (1u128 << bits) <= 2 * range as u128 {
+                    // (appendix A.2: min_bits = log2(num_unacked) + 1, i.e. 2^bits >= 2 * num_unacked)
+                    if (1u128 << bits) < 2 * range as u128 {
                         out.push(viol(
                             "C08",
                             "c08.pn_truncation_too_short",
@@ -516,7 +687,9 @@ pub fn c12(v: &View) -> Vec<Violation> {
             });
             if let Some((_, _, c0)) = &first_close {
                 let only_close = frames.iter().all(|f| matches!(f, Frame::ConnectionClose { .. } | Frame::Padding { .. }));
-                if (!only_close || close_frame.as_deref() != Some(c0.as_str())) && flagged.insert("after_close".into()) {
+                // (an application close is sent as a transport close with APPLICATION_ERROR in
+                //  Initial/Handshake packets, RFC 9000 10.2.3, so the frames may differ by space)
+                if (!only_close || close_frame.is_none()) && flagged.insert("after_close".into()) {
                     let names: Vec<&str> = frames.iter().map(|f| f.type_name()).collect();
                     out.push(viol(
                         "C12",
@@ -556,7 +729,7 @@ pub fn c12(v: &View) -> Vec<Violation> {
                                 out.push(viol(
                                     "C12",
                                     "c12.stream_after_reset",
-                                    "stream_after_reset",
+                                    if *len == 0 && *off == 0 && !*fin { "empty_open_notify_frame_after_reset" } else { "stream_after_reset" },
                                     format!("conn {idx} {role:?}: STREAM frame for stream {id} in packet {} after RESET_STREAM in packet {rp}", t.pn),
                                 ));
                             }
